@@ -130,6 +130,52 @@ fn routes() -> R {
     Ok(())
 }
 
+/// mutating operations against the shape the specification says they produce: the result's digest is the
+/// specification's digest of that shape (computed independently), whatever entry point was used
+fn mutated() -> R {
+    let cat = spec::catalogue(5, true, false, false);
+    let extra = vec![
+        n(l(1), vec![a(l(2), l(3)), a(l(4), l(5)), a(l(6), l(7))]),
+        n(k(1001), vec![a(k(1002), l(3)), a(l(4), w(l(5))), a(l(6), l(7)), a(l(8), l(9))]),
+        n(w(l(1)), vec![n(a(l(2), l(3)), vec![a(l(4), l(5))]), a(l(6), l(7))]),
+    ];
+    let i = choice(cat.len() + extra.len());
+    let s = if i < cat.len() { cat[i].clone() } else { extra[i - cat.len()].clone() };
+    let Spec::Node(sub, asr) = &s else { return Err(rt::Stop::Skip) };
+    if matches!(**sub, Spec::Node(..)) { return Err(rt::Stop::Skip); }
+    let e = build(&s);
+    let nas = asr.len();
+    let node = |sub: &Spec, v: Vec<Spec>| -> Spec { if v.is_empty() { sub.clone() } else { Spec::Node(Box::new(sub.clone()), v) } };
+    let fresh = a(l(900), l(901));
+    let k = choice(10);
+    let j = choice(nas);
+    let (r, want): (Envelope, Spec) = match k {
+        0 => { op("add_assertion_envelope (already present)"); (must!(e.add_assertion_envelope(build(&asr[j])), "add refused"), s.clone()) }
+        1 => { op("add_assertion_envelope (elided form of a present assertion)"); (must!(e.add_assertion_envelope(build(&asr[j]).elide()), "add refused"), s.clone()) }
+        2 => { op("remove_assertion"); let mut v = asr.clone(); v.remove(j); (e.remove_assertion(build(&asr[j])), node(sub, v)) }
+        3 => { op("replace_assertion (by a new assertion)"); let mut v = asr.clone(); v[j] = fresh.clone(); (must!(e.replace_assertion(build(&asr[j]), build(&fresh)), "replace refused"), node(sub, v)) }
+        4 => {
+            op("replace_assertion (by another assertion already present, clear or elided)");
+            if nas < 2 { return Err(rt::Stop::Skip); }
+            let i2 = (j + 1 + choice(nas - 1)) % nas;
+            let twin = if choice(2) == 0 { build(&asr[i2]) } else { build(&asr[i2]).elide() };
+            let mut v = asr.clone(); v.remove(j);
+            (must!(e.replace_assertion(build(&asr[j]), twin), "replace refused"), node(sub, v))
+        }
+        5 => { op("add_assertion_envelope_salted(false) (already present)"); (must!(e.add_assertion_envelope_salted(build(&asr[j]), false), "add refused"), s.clone()) }
+        6 => { op("add_assertions_salted(false) (already present)"); (e.add_assertions_salted(&[build(&asr[j]), build(&asr[(j + 1) % nas])], false), s.clone()) }
+        7 => { op("add_assertion_salted(false) (new, twice)"); let mut v = asr.clone(); v.push(fresh.clone()); (e.add_assertion_salted(leaf_text(900), leaf_text(901), false).add_assertion_salted(leaf_text(900), leaf_text(901), false), node(sub, v)) }
+        8 => { op("replace_subject"); (e.replace_subject(build(&l(950))), node(&l(950), asr.clone())) }
+        _ => { op("add_assertion_envelopes (present and new)"); let mut v = asr.clone(); v.push(fresh.clone()); (must!(e.add_assertion_envelopes(&[build(&asr[j]), build(&fresh), build(&fresh)]), "add refused"), node(sub, v)) }
+    };
+    rt::note(format!("{} op {} -> {}", s.show(), k, want.show()));
+    ensure!(dg(&r) == spec_digest(&want), "digest after a mutating operation differs from the specification's digest of the resulting shape", "{} after {}: expected the digest of {}", s.show(), crate::engine::cur_op(), want.show());
+    let wn = match &want { Spec::Node(_, v) => v.len(), _ => 0 };
+    ensure!(r.assertions().len() == wn, "a mutating operation left another number of assertions than the resulting shape has", "{} vs {} ({} after {})", r.assertions().len(), wn, s.show(), crate::engine::cur_op());
+    if let Err(m) = check_tree(&r) { return rt::viol("stored digests disagree with recomputation", m); }
+    Ok(())
+}
+
 struct Golden { name: &'static str, make: fn() -> Envelope, hex: &'static str }
 fn goldens() -> Vec<Golden> {
     vec![
@@ -252,6 +298,9 @@ pub fn prop() -> Prop {
             Scenario { name: "routes", f: routes, thorough_only: false,
                 bounds: "every envelope shape of <=8 elements (quick) / <=10 (thorough) from the grammar leaf | known value | wrapped | assertion | node(<=3 assertions) | decorated assertion, plus 21 hand-written larger shapes (3-4 assertions, nested nodes, obscured children, node whose subject is a node, repeated content) x 8 routes (construct; permuted insertion; encode->decode; wrap->unwrap + UR; encrypt->decrypt; compress->uncompress (whole / subject); remove->add + replace_subject; obscure any single position with any of the 3 actions) x every digest order; at every position digest() == SHA-256 rule of the specification computed with sha2 in the harness",
                 api: &["Envelope::new", "new_assertion", "add_assertion_envelope", "wrap_envelope", "unwrap_envelope", "try_from_cbor_data", "ur_string", "from_ur_string", "encrypt_subject", "decrypt_subject", "compress", "uncompress", "compress_subject", "uncompress_subject", "remove_assertion", "replace_subject", "elide_removing_set_with_action", "walk", "digest"] },
+            Scenario { name: "mutated", f: mutated, thorough_only: false,
+                bounds: "every node shape of <=5 elements with known values + 3 larger ones (3-4 assertions, decorated assertion, wrapped subject) x 10 mutating operations (add present / its elided form, remove, replace by new / by another present one (clear or elided), unsalted salted-family adds of present and new assertions, bulk add with repeats, replace_subject) x every argument position x every digest order: digest == independently computed digest of the shape the operation is documented to give",
+                api: &["add_assertion_envelope", "remove_assertion", "replace_assertion", "add_assertion_envelope_salted", "add_assertions_salted", "add_assertion_salted", "add_assertion_envelopes", "replace_subject"] },
             Scenario { name: "leaf_values", f: leaf_values, thorough_only: false,
                 bounds: "41 leaf values (unsigned/negative integer width boundaries, reducible and irreducible floats, inf/nan, NFC and non-ASCII text, byte strings, bool/null, arrays, map, tagged, dates) x 5 positions (subject, predicate, object, wrapped, object of an assertion on an assertion), constructed and decoded; expected digests are SHA-256 of hand-written dCBOR bytes. Catalogue, not solver-quantified",
                 api: &["Envelope::new(T) for numeric/text/bytes/bool/array/map/tagged/date", "try_from_cbor_data"] },
